@@ -35,17 +35,21 @@ def sample_counts(k, n, M, seed, companions=0):
     cnt = {}
     for _ in range(M):
         comp = [GS.make("uniform", 1 + (k + j) % 3, False) for j in range(companions)]
-        st = GS.make("uniform", k, False)
+        targets = bool(_ % 2)
+        st = GS.make("uniform", k, targets)
         comp += [GS.make("uniform", k, False) for j in range(1 if companions else 0)]
         for t in range(1, n + 1):
             for c in comp[: companions // 2 + 1] if companions else []:
                 c.update({"id": t})
-            st.update({"id": t})
+            st.update({"id": t}, "y%d" % t)
             for c in comp[companions // 2 + 1:] if companions else []:
                 c.update({"id": t})
             if companions and t == k + 1:
                 GS.make("uniform", k, False)       # a decoy created while the others are mid-stream
-        key = frozenset(x["id"] for x in st.get_data()[0])
+        xs, ys = st.get_data()
+        key = frozenset(x["id"] for x in xs)
+        if targets and [("y%d" % x["id"]) for x in xs] != list(ys):
+            key = frozenset({-1})      # an (instance, target) pair that never occurred in the stream: not a subset of it
         cnt[key] = cnt.get(key, 0) + 1
     return cnt
 
